@@ -10,6 +10,8 @@ def pipeline(ctx, harness_cmd, drv, stdin_data=None):
     """harness | driver ; returns (summary dict, mismatch list, harness rc)"""
     env = dict(os.environ)
     env.update(RUST_BACKTRACE='0')
+    limit = '14000' if ctx.tier == 'thorough' else '1500'
+    harness_cmd = ['timeout', '-k', '5', limit] + list(harness_cmd)
     p1 = subprocess.Popen(harness_cmd, stdin=subprocess.PIPE if stdin_data is not None else subprocess.DEVNULL,
                           stdout=subprocess.PIPE, stderr=subprocess.DEVNULL, env=env)
     p2 = subprocess.Popen([drv], stdin=p1.stdout, stdout=subprocess.PIPE)
